@@ -217,6 +217,10 @@ func runC16(c *core.Ctx) core.Meta {
 		}
 	}
 
+	// R16.10 a handled message leaves its port
+	st10 := c.Rule("R16.10", "a message the translator looked at and reported progress for is taken off its port: in every handler, from PeekIncoming (message present) no path reaches `return true` without RetrieveIncoming on the same port (callees followed). A late reply to a discarded access that is left at the head of the bottom port blocks every later reply: the accesses forwarded after a restart are never answered, and the component reports progress for ever", 2)
+	checkPeekedHandledConsumed(c, st10, "R16.10", p, "the message stays at the head of the port: every later message on that port is blocked behind it and the handler reports progress on every tick")
+
 	// R16.9 a restart empties each port
 	st9 := c.Rule("R16.9", "the restart of the translator empties each of its ports: every drain loop (a loop that only takes messages off a port) serves one port and is left only where the retrieved message is nil. A loop over two ports stops when either is empty; what stays behind is translated, forwarded or returned after the flush", 1)
 	checkDrainLoops(c, st9, "R16.9", p, "accesses and replies that belong to the discarded state are processed after the restart")
